@@ -27,7 +27,7 @@ ASSUMPTIONS = [
     "dyadic inputs: implementation float arithmetic is exact, comparison is equality of rationals",
 ]
 
-FORCES = [None, ["constraint", "pconstraint", "noperiod"], ["twin"], ["stacked", "aux"], ["log"], ["log", "filter"], ["f1two"], ["stoch3"], ["stoch3", "eqsize"], ["stoch", "eqsize", "filter"], ["ninf"], ["intutil"], ["intutil", "constraint"], ["divguard"], ["f1"], ["divguard", "constraint", "stoch"], ["mixed"], ["stoch"], ["filter"], ["constraint"], ["cont2"], ["aux"], ["nofilter"], ["f1", "stoch"], ["filter", "constraint"], None]
+FORCES = [None, ["constraint", "pconstraint", "noperiod"], ["twin"], ["stacked", "aux"], ["log"], ["log", "filter"], ["f1two"], ["stoch3"], ["stoch3", "eqsize"], ["stoch", "eqsize", "filter"], ["ninf"], ["intutil"], ["intutil", "constraint"], ["intconstraint", "constraint"], ["intconstraint"], ["divguard"], ["f1"], ["divguard", "constraint", "stoch"], ["mixed"], ["stoch"], ["filter"], ["constraint"], ["cont2"], ["aux"], ["nofilter"], ["f1", "stoch"], ["filter", "constraint"], None]
 
 
 def cases(seed, tier):
